@@ -1,5 +1,6 @@
 import Zc.Model.Dns
 import Zc.Model.Sched
+import Zc.Model.Sched2
 /-! line protocol for C10 (QueryScheduler).
 
 `c10run <minDelay> <qtype:-|0|1> <lo> <hi> <ntypes> <type hex>… <nops> <op>…` with ops
@@ -7,7 +8,7 @@ import Zc.Model.Sched
 Answer: one chunk per op joined by ` | `: `ok|rej ; sends ; armed ; startupSent ; live entries`.
 Aliases are lower-cased here (`pointer.alias_key`). -/
 namespace Zc.Driver.C10
-open Zc Zc.Sched
+open Zc Zc.Sched Zc.Sched2
 
 def b01 (b : Bool) : String := if b then "1" else "0"
 
@@ -29,9 +30,24 @@ def armedStr : Option (Timer × Int) → String
   | some (.startup, d) => s!"s{d}"
   | some (.ready, d) => s!"r{d}"
 
-def stateStr (s : S) : String :=
-  let l := sortStr ((live s.heap).map qStr)
-  s!"{armedStr s.armed} ; {s.startupSent} ; {if l.isEmpty then "-" else " ".intercalate l}"
+/-- a heap entry with its flag -/
+def objStr (o : Obj) : String := s!"{qStr o.q},{b01 o.q.cancelled}"
+
+/-- `alias=<the object stored under it>`; `?` when the identity is not in the heap -/
+def dictEntryStr (heap : List Obj) (e : String × Nat) : String :=
+  match getObj e.2 heap with
+  | some o => s!"{hexOfStr e.1}={objStr o}"
+  | none => s!"{hexOfStr e.1}=?"
+
+def stateStr (s : S2) : String :=
+  let d := sortStr (s.dict.map (dictEntryStr s.heap))
+  let h := sortStr (s.heap.map objStr)
+  s!"{armedStr s.armed} ; {s.startupSent} ; {if d.isEmpty then "-" else " ".intercalate d} ; {if h.isEmpty then "-" else " ".intercalate h}"
+
+def errStr : Err → String
+  | .notEnabled => "rej-step"
+  | .keyError => "KeyError"
+  | .dangling => "dangling"
 
 def parseOp : Tok (Int × Op) := do
   let k ← Tok.next
@@ -60,26 +76,31 @@ def parse : Tok (Cfg × List (Int × Op)) := do
   Tok.done
   pure ({ types, minDelay, qtype, lo, hi }, ops)
 
-/-- run op by op (like `exec`, but keeps going after a rejected block so that the harness sees where) -/
-def runOps (c : Cfg) : S → Int → List (Int × Op) → List String
+/-- run op by op on the two-container model (like `exec2`, but keeps going after a rejected block so that the
+harness sees where) -/
+def runOps (c : Cfg) : S2 → Int → List (Int × Op) → List String
   | _, _, [] => []
   | s, clk, (t, op) :: es =>
-    if enabledAt s clk t then
-      match step c s t op with
-      | some (s1, o) =>
+    if enabledAt2 s clk t then
+      match step2 c s t op with
+      | .ok (s1, o) =>
         s!"ok ; {if o.isEmpty then "-" else " ".intercalate (o.map sendStr)} ; {stateStr s1}" :: runOps c s1 t es
-      | none => s!"rej-step ; - ; {stateStr s}" :: runOps c s t es
+      | .error e => s!"{errStr e} ; - ; {stateStr s}" :: runOps c s t es
     else s!"rej-time ; - ; {stateStr s}" :: runOps c s (max clk t) es
 
 def c10run (toks : List String) : String :=
   match parse.run toks with
   | some ((c, ops), _) =>
-    let chunks := runOps c {} (match ops with | (t, _) :: _ => t | [] => 0) ops
-    -- agreement of the op-by-op runner with `exec` (the function the theorems are about)
-    let viaExec := match exec c {} (match ops with | (t, _) :: _ => t | [] => 0) ops with
+    let t0 := match ops with | (t, _) :: _ => t | [] => 0
+    let chunks := runOps c {} t0 ops
+    -- agreement of the op-by-op runner with `exec2` and with the abstract `exec` (the functions the theorems are about)
+    let via2 := match exec2 c {} t0 ops with
+      | .ok (s, outs) => s!"exec-ok {outs.length} {armedStr s.armed}"
+      | .error e => s!"exec-{errStr e}"
+    let via1 := match exec c {} t0 ops with
       | some (s, outs) => s!"exec-ok {outs.length} {armedStr s.armed}"
-      | none => "exec-none"
-    " | ".intercalate (viaExec :: chunks)
+      | none => "exec-rej-step"
+    " | ".intercalate ((if via1 = via2 then via2 else s!"exec-mismatch[{via1}/{via2}]") :: chunks)
   | none => "bad-op"
 
 def dispatch (cmd : String) (rest : List String) : Option String :=
